@@ -171,7 +171,11 @@ TRAV_RULE = ("traversal engine: real traversal.Start with a scripted blocking Do
              "Stop / AddNodes at every position of small schedules, seeded random schedules up to 14 (40) nodes. Every line compares "
              "started-address set, outstanding, frontier length, Stalled, Stopped, per-query ctx.Done, AddNodes return, final closest set. "
              "Relational: the runner keeps the set of model states reachable by interleaving the four locked sections of a completion with "
-             "the run loop. A line is distinct by its full text.")
+             "the run loop. Overlapping completions (line tdonem): groups of in-flight queries are released back to back while NodeFilter / "
+             "DataFilter callbacks are armed to wait for one another (bounded), the runner explores every interleaving of their locked sections "
+             "(C02_overlapping_replies_runner_sound), result-set oracles at quiescence. Boundary ids (kind edgeid: 00..00, ff..ff, target, "
+             "target^1, ^target on responders / listings / seeds, id-based filter that lets id-less candidates pass; oracle "
+             "queried-addr-never-passed-filter). A line is distinct by its full text.")
 TRAV_TRUSTED = ["Go scheduler / select fairness and chansync internals (BroadcastCond modelled as a generation counter, SetOnce, LevelTrigger)",
                 "K-nearest tie-break (seeded maphash) assumed a strict total order; immutable.SortedMap modelled as a sorted list",
                 "quiescence detection relies on the hook reading op.cond.ch by reflection",
